@@ -231,7 +231,9 @@ Record step_out (r : role) (me pe : endpoint) (hme hpe : list frame) (kme : nat)
                    (r = Server -> closing_done (x_state (cx me)) = true -> is_cc res = true));
   so_fair_read : fair_oracle wrs fls -> o = OpRead -> outb me = [] -> x_state (cx me) <> Terminated ->
                  outb me' = [] /\ (j = 0%nat -> x_additional (cx me') = None) /\
-                 (r = Server -> closing_done (x_state (cx me)) = true -> is_cc res = true) }.
+                 (r = Server -> closing_done (x_state (cx me)) = true -> is_cc res = true) /\
+                 (forall f, x_additional (cx me) = Some f ->
+                            exists f1 rest, nf = f1 :: rest /\ isclose f1 = isclose f) }.
 
 Lemma is_closed_res_cc r : is_closed_res r = is_cc r.
 Proof. destruct r as [[m|e|p|]|[u|e|p|]|b]; reflexivity. Qed.
